@@ -14,7 +14,7 @@ def run(c):
     n = 4000 if c.tier == "quick" else 80000
     res, d = run_filtered(c, n)
     if res is not None:
-        c.corr("Json.json_minify_events vs json.Minify (real parser events -> bytes) and JsonSpec.events_of vs the real parse/json parser", d)
+        c.corr("Json.json_minify_events vs json.Minify (real parser events -> bytes); JsonSpec.events_of vs the real parse/json parser; Json.parse_events (model of Parser.Next: events and verdict) vs the real parser on every valid, mutated, malformed and corpus text", d)
     c.replay_known(None)
     c.cov["trusted_base"] += [
         "C07: the parse/v2/json parser is run, not modelled; the statement is over its event stream, and events_of (spec) is compared with the real parser on every generated document",
